@@ -125,8 +125,8 @@ EXTRA_MODULES = {
     "C04": ["CodeLimit.Lemmas.GenTie", "CodeLimit.Props.C01marks"],
     "C05": ["CodeLimit.Lemmas.GenTie", "CodeLimit.Props.C05text"],
     "C09": ["CodeLimit.Props.Pipeline", "CodeLimit.Props.C09sel"],
-    "C11": ["CodeLimit.Props.C11pat", "CodeLimit.Props.C11patRegex", "CodeLimit.Props.Pipeline"],
-    "C12": ["CodeLimit.Props.C11pat", "CodeLimit.Props.Pipeline", "CodeLimit.Props.C12cwd"],
+    "C11": ["CodeLimit.Props.C11pat", "CodeLimit.Props.C11patRegex", "CodeLimit.Props.Pipeline", "CodeLimit.Props.Entry"],
+    "C12": ["CodeLimit.Props.C11pat", "CodeLimit.Props.Pipeline", "CodeLimit.Props.C12cwd", "CodeLimit.Props.Entry"],
     "C17": ["CodeLimit.Lemmas.GenTie", "CodeLimit.Props.C01marks"],
 }
 
